@@ -16,10 +16,10 @@ U4 = ("<-", "Users4")
 BASE_CONSTS = {
     "UserSeq": U3, "NA": 2, "D": 2, "Dev": set(),
     "Inputs": ("<-", "MCInputs"), "Bal0": ("<-", "MCBal0"), "Params0": ("<-", "MCParams0"),
-    "KeepHist": False, "GenDepth": 0, "GenDir": ".", "KindBag": ("<-", "BagDefault"),
+    "NL": 0, "KeepHist": False, "GenDepth": 0, "GenDir": ".", "KindBag": ("<-", "BagDefault"),
     "Tmax": 7, "Jump": 2, "MaxAuc": 1, "CreateUntil": 1, "StartOffsets": {1}, "Dur": 2, "Templates": {"B1"}, "Bidders": {"u2", "u3"},
     "Prices": {1, 2}, "Amts": {1, 3}, "CapSet": {5}, "MaxBids": 2, "MaxMods": 1, "MaxDon": 0,
-    "WithInvalid": False, "WithGenesis": False,
+    "WithInvalid": False, "WithGenesis": False, "HookVariants": False,
 }
 
 
@@ -43,9 +43,17 @@ def gen(name, num, depth, **consts):
 # ---- bounded instances (sizes measured; see evidence/*.json "design") ----------------------
 MC_BATCH_Q = mc("MC_Batch_q", Templates={"B1"}, Prices={1, 2}, Amts={1, 3}, MaxBids=2, Tmax=7)
 MC_FIXED_Q = mc("MC_Fixed_q", Templates={"F1"}, Amts={1, 2, 4}, MaxBids=3, Tmax=7, CapSet={3, 5})
-MC_LIFE_Q = mc("MC_Life_q", Templates={"Fl", "Bl"}, MaxAuc=2, Amts={2}, Prices={2}, MaxBids=1, Tmax=9, Jump=3, CapSet={5},
+MC_LIFE_Q = mc("MC_Life_q", D=4, Templates={"Fl", "Bl"}, MaxAuc=1, Amts={2}, Prices={4}, MaxBids=1, Tmax=10, Jump=3, CapSet={5},
                CreateUntil=2, StartOffsets={0, 1}, WithInvalid=False)
-MC_INVALID_Q = mc("MC_Invalid_q", Templates={"B0", "F0"}, Amts={1}, Prices={2}, MaxBids=1, Tmax=4, Jump=2, WithInvalid=True)
+MC_LIFE2_Q = mc("MC_Life2_q", D=4, Templates={"Fl", "Bl"}, MaxAuc=2, Amts={2}, Prices={4}, MaxBids=0, Tmax=9, Jump=3, CapSet={5},
+                CreateUntil=1, StartOffsets={0, 1}, WithInvalid=False)
+MC_INVALID_Q = mc("MC_Invalid_q", Templates={"B0"}, Amts={1}, Prices={2}, MaxBids=2, Tmax=4, Jump=3, CapSet={1, 5}, WithInvalid=True,
+                  CreateUntil=1)
+MC_INVALID1_Q = mc("MC_Invalid1_q", Templates={"B0"}, Amts={1}, Prices={2}, MaxBids=1, Tmax=4, Jump=3, CapSet={1, 5}, WithInvalid=True,
+                   CreateUntil=1)
+MC_INVALIDF_Q = mc("MC_InvalidF_q", Templates={"F0"}, Amts={1}, Prices={2}, MaxBids=2, Tmax=4, Jump=3, CapSet={1, 5}, WithInvalid=True)
+MC_GENESIS_Q = mc("MC_Genesis_q", Templates={"B1", "F1"}, MaxAuc=2, Amts={2}, Prices={2}, MaxBids=1, Tmax=6, Jump=2, WithGenesis=True,
+                  Dev={"genesis_drops_lastMatched"} - {"genesis_drops_lastMatched"})
 MC_MULTI_Q = mc("MC_Multi_q", Templates={"B0", "F0"}, MaxAuc=2, Amts={2}, Prices={2}, MaxBids=1, Tmax=4, Jump=2)
 
 GEN_GENERAL = [
@@ -84,21 +92,29 @@ PLANS = {
     "C04": dict(mc=[MC_BATCH_Q, MC_FIXED_Q], gen=GEN_GENERAL),
     "C05": dict(mc=[MC_BATCH_Q, MC_FIXED_Q], gen=GEN_GENERAL),
     "C06": dict(mc=[MC_FIXED_Q], gen=GEN_GENERAL),
-    "C07": dict(mc=[MC_LIFE_Q], gen=GEN_GENERAL),
-    "C08": dict(mc=[MC_LIFE_Q], gen=GEN_GENERAL),
-    "C09": dict(mc=[MC_LIFE_Q], gen=GEN_GENERAL),
-    "C10": dict(mc=[MC_INVALID_Q], gen=GEN_GENERAL),
+    "C07": dict(mc=[MC_LIFE_Q, MC_LIFE2_Q], gen=GEN_GENERAL),
+    "C08": dict(mc=[MC_LIFE_Q, MC_LIFE2_Q], gen=GEN_GENERAL),
+    "C09": dict(mc=[MC_LIFE_Q, MC_LIFE2_Q], gen=GEN_GENERAL),
+    "C10": dict(mc=[MC_INVALID1_Q, MC_INVALIDF_Q], gen=GEN_GENERAL),
     "C11": dict(mc=[MC_BATCH_Q], gen=GEN_GENERAL),
-    "C12": dict(mc=[MC_INVALID_Q], gen=GEN_GENERAL),
+    "C12": dict(mc=[MC_INVALID1_Q, MC_INVALIDF_Q], gen=GEN_GENERAL),
     "C13": dict(mc=[MC_BATCH_Q], gen=GEN_GENERAL),
-    "C15": dict(mc=[], gen=[dict(g, consts=dict(g["consts"], WithGenesis=True, KindBag=("<-", "BagGenesis"),
+    "C15": dict(mc=[MC_GENESIS_Q], gen=[dict(g, consts=dict(g["consts"], WithGenesis=True, KindBag=("<-", "BagGenesis"),
                                                  Templates=set(g["consts"]["Templates"]) | {"Bx"})) for g in GEN_GENERAL]),
     "C16": dict(mc=[MC_BATCH_Q, MC_FIXED_Q], gen=GEN_GENERAL),
-    "C18": dict(mc=[MC_INVALID_Q], gen=GEN_GENERAL),
+    "C18": dict(mc=[MC_INVALID1_Q, MC_INVALIDF_Q], gen=GEN_GENERAL),
     "C19": dict(mc=[MC_MULTI_Q], gen=GEN_GENERAL),
 }
 
 
+MC_HOOKS_Q = mc("MC_Hooks_q", NL=2, HookVariants=True, Templates={"B0", "F0"}, Amts={2}, Prices={2}, MaxBids=1, Tmax=5, Jump=2,
+                CapSet={5}, StartOffsets={0})
+PLANS["C17"] = dict(mc=[MC_HOOKS_Q], gen=[
+    gen("hooksA", 100, 30, NL=3, HookVariants=True, Templates={"B0", "B1", "F0", "F1"}, MaxAuc=2, Prices={1, 2, 3}, Amts={1, 2, 3, 5},
+        CapSet={3, 5, 10}, MaxBids=5, Tmax=20, Jump=3, CreateUntil=4, StartOffsets={0, 1}, Dur=3, WithInvalid=True),
+    gen("hooksB", 100, 30, NL=1, D=4, HookVariants=True, Templates={"B2", "Bl", "Fl"}, MaxAuc=2, Prices={2, 4, 6}, Amts={1, 2, 4},
+        CapSet={2, 6}, MaxBids=5, Tmax=20, Jump=3, CreateUntil=4, StartOffsets={0, 1}, Dur=3, UserSeq=U4, Bidders={"u2", "u3", "u4"}),
+])
 PLANS["C14"] = dict(mc=[], gen=GEN_MANY + scale(GEN_GENERAL, 0.3), check="C14", replicas=5, processes=2,
                     assumptions=["C14 is a 2-safety property of the implementation: the specification is deterministic by construction (every Do operator is a function), so there is no design-level model checking; the clause compares replicas of real executions"])
 PLANS["ALL"] = dict(mc=[], gen=GEN_GENERAL, check="ALL")
